@@ -581,6 +581,17 @@ func c01Configs(part, tier string) []C01Cfg {
 			add("Resize", "ULM", "W2")
 			add("Resize", "Snap", "W2")
 		}
+	case "C08conc":
+		// writers of the metadata files against each other: after every interleaving the directory, as a process death
+		// would leave it (the after-death view of the state), opens with the chain and data of a sequential merge
+		for _, p := range [][]string{{"CloneSt", "Snap"}, {"CloneSt", "Resize"}, {"CloneSt", "Rebuilding"}, {"CloneSt", "Checkpoint"}, {"Rebuilding", "Snap"}, {"Checkpoint", "Snap"},
+			{"Rebuilding", "Checkpoint"}, {"Snap", "Resize"}, {"Revert", "Resize"}, {"Snap", "Snap"}, {"Rm", "Snap"}, {"Rebuilding", "Revert"}, {"Checkpoint", "Revert"}, {"Rm", "Rebuilding"}} {
+			add(p...)
+		}
+		if tier == "thorough" {
+			add("CloneSt", "Snap", "Rebuilding")
+			add("Checkpoint", "Resize", "Snap")
+		}
 	case "C12conc":
 		// management operations against each other
 		for _, p := range [][]string{{"Snap", "Snap"}, {"Snap", "Resize"}, {"Rm", "Resize"}, {"Rm", "Reload"}, {"Rm", "Rm"}, {"Revert", "Resize"}, {"Revert", "Revert"},
@@ -601,3 +612,4 @@ func checkC06conc() int { return checkSimple("C06", "C06conc", "C06-conc.part") 
 func checkC12conc() int { return checkSimple("C12", "C12conc", "C12-conc.part") }
 func checkC17conc() int { return checkSimple("C17", "C17conc", "C17-conc.part") }
 func checkC16conc() int { return checkSimple("C16", "C16conc", "C16-conc.part") }
+func checkC08conc() int { return checkSimple("C08", "C08conc", "C08-conc.part") }
